@@ -83,7 +83,56 @@ def build_dest(address, d):
         return o
     if k == "raw":      # illegal-pool values
         return {"none": None, "float": 1.5, "str": "5", "bytes": b"\x05", "baseaddr": address.Address()}.get(d[1], d[1])
+    if k == "num":
+        return lookalike(d)
     raise ValueError(d)
+
+
+def lookalike(d):
+    """["num", kind, n]: a value that compares (and hashes) equal to the int n but is not an int."""
+    import decimal
+    import fractions
+    _, kind, n = d
+    return {"float": float, "fraction": fractions.Fraction, "decimal": decimal.Decimal,
+            "complex": complex}[kind](n)
+
+
+def legal_twin(case):
+    """The same case with every numeric look-alike replaced by the int it equals (None if there is none)."""
+    found = []
+
+    def rep(v, dest=False):
+        if isinstance(v, list) and len(v) == 3 and v[0] == "num":
+            found.append(v)
+            return ["int", v[2]] if dest else v[2]
+        if isinstance(v, list):
+            return [rep(x) for x in v]
+        if isinstance(v, dict):
+            return {k: rep(x) for k, x in v.items()}
+        return v
+    out = {k: (rep(v, dest=(k == "dest")) if k != "illegal" else None) for k, v in case.items()}
+    out.pop("illegal")
+    return out if found else None
+
+
+def unraw(v):
+    return lookalike(v) if isinstance(v, list) and len(v) == 3 and v[0] == "num" else v
+
+
+LOOKALIKES = [("float-integral", "float"), ("fraction", "fraction"), ("decimal", "decimal"), ("complex", "complex")]
+
+
+def bad_ints(top):
+    """Out-of-range integers for a field whose legal values are 0..top: both sides, the neighbouring powers of
+    two and the byte-sized values that have a meaning elsewhere in the protocol (MASK 255, 254, 127/128)."""
+    pool = [("neg", -1), ("neg-2", -2), ("neg-byte", -256), ("neg-big", -2 ** 31), ("above", top + 1), ("above+1", top + 2),
+            ("x2-1", 2 * (top + 1) - 1), ("x2", 2 * (top + 1)), ("x4", 4 * (top + 1)), ("127", 127), ("128", 128),
+            ("254", 254), ("255", 255), ("256", 256), ("257", 257), ("65535", 65535), ("big", 2 ** 31)]
+    seen = set()
+    for tag, v in pool:
+        if (v < 0 or v > top) and v not in seen:
+            seen.add(v)
+            yield tag, v
 
 
 def dest_equal(address, obj_dest, d):
@@ -147,15 +196,15 @@ def construct(case):
         raise LookupError(case["cls"])
     fam = case["fam"]
     if fam == "_StandardCommand":
-        return cls(build_dest(address, case["dest"]), *case.get("params", []))
+        return cls(build_dest(address, case["dest"]), *[unraw(x) for x in case.get("params", [])])
     if fam == "DAPC":
-        return cls(build_dest(address, case["dest"]), case["power"])
+        return cls(build_dest(address, case["dest"]), unraw(case["power"]))
     if fam == "_SpecialCommand":
-        return cls(*case.get("params", []))
+        return cls(*[unraw(x) for x in case.get("params", [])])
     if fam == "_ShortAddrSpecialCommand":
-        return cls(case["address"])
+        return cls(unraw(case["address"]))
     if fam == "Initialise":
-        return cls(**case["kw"])
+        return cls(**{k: unraw(v) for k, v in case["kw"].items()})
     if fam == "_StandardDeviceCommand":
         return cls(build_dest(address, case["dest"]))
     if fam == "_StandardInstanceCommand":
@@ -164,14 +213,14 @@ def construct(case):
             build_dest(address, ["raw", inst]) if not isinstance(inst, list) else build_dest(address, inst)
         return cls(build_dest(address, case["dest"]), inst)
     if fam in ("_SpecialDeviceCommand", "_SpecialDeviceCommandOneParam", "_SpecialDeviceCommandTwoParam"):
-        return cls(*case.get("params", []))
+        return cls(*[unraw(x) for x in case.get("params", [])])
     if fam in ("_Event", "UnknownEvent", "AmbiguousInstanceType"):
         kw = dict(case["kw"])
         if case.get("occ_tuple"):
             from dali.device.occupancy import OccupancyEvent
             kw["data"] = OccupancyEvent.EventData(*case["occ_tuple"])
         for k, v in list(kw.items()):
-            if isinstance(v, list) and v and v[0] == "raw":
+            if isinstance(v, list) and v and v[0] in ("raw", "num"):
                 kw[k] = build_dest(address, v)
             if isinstance(v, list) and v and v[0] == "dshort":
                 kw[k] = address.DeviceShort(v[1])
@@ -195,6 +244,13 @@ def run_case(case):
     if cls is None:
         return [("C02:class-missing:" + name, "%s no longer exists" % case["cls"])]
     if case.get("illegal"):
+        tw = legal_twin(case)
+        if tw is not None:
+            # the int the look-alike equals has been used legally just before (a program that mixes both)
+            try:
+                construct(tw)
+            except Exception:  # noqa - judged in the legal cases
+                pass
         try:
             obj = construct(case)
         except Exception as e:  # noqa - any exception raised by the library is a rejection
@@ -215,6 +271,19 @@ def run_case(case):
     out = []
     try:
         f = obj.frame
+        if case.get("sibling"):
+            # a second object of the same class is built while this one is still in use: each keeps its own frame
+            before = (len(f), f.as_integer)
+            sib = construct(dict(case["sibling"], cls=case["cls"], fam=case["fam"]))
+            now = (len(obj.frame), obj.frame.as_integer)
+            if now != before or (len(f), f.as_integer) != before:
+                out.append(("C02:frame-changed-by-building-another-object:" + case["fam"],
+                            "%s: frame was %#x, is %#x after %s was built" % (where, before[1], now[1], sib)))
+            sf = sib.frame
+            alone = construct(dict(case["sibling"], cls=case["cls"], fam=case["fam"])).frame
+            if (len(sf), sf.as_integer) != (len(alone), alone.as_integer) or obj.frame.as_integer != before[1]:
+                out.append(("C02:frame-changed-by-building-another-object:" + case["fam"],
+                            "%s: sibling frame %#x vs %#x when built again" % (where, sf.as_integer, alone.as_integer)))
         dmap = None
         if "maptype" in case:
             from dali.device.helpers import DeviceInstanceTypeMapper
@@ -457,26 +526,30 @@ def illegal_cases(path, fam, cls):
             legal["power"] = 100
         elif cls._hasparam:
             legal["params"] = [3]
-        for tag, v in [("int-neg", ["int", -1]), ("int-64", ["int", 64]), ("int-big", ["int", 2 ** 31]),
+        for tag, v in [("int-" + t, ["int", x]) for t, x in bad_ints(63)] + \
+                      [(t, ["num", k, 5]) for t, k in LOOKALIKES] + [
                        ("none", ["raw", "none"]), ("float", ["raw", "float"]), ("str", ["raw", "str"]),
                        ("bytes", ["raw", "bytes"]), ("device-short", ["dshort", 5]), ("device-group", ["dgroup", 5]),
                        ("device-broadcast", ["dbcast"]), ("device-unaddressed", ["dunaddr"]), ("base-address", ["raw", "baseaddr"])]:
             yield dict(legal, dest=v, illegal="destination:" + tag)
         if fam == "DAPC":
-            for tag, v in [("neg", -1), ("256", 256), ("big", 2 ** 31), ("none", None), ("float", 1.5), ("str", "5"),
-                           ("other-str", "ON")]:
+            for tag, v in list(bad_ints(255)) + [("none", None), ("float", 1.5), ("str", "5"), ("other-str", "ON")] + \
+                    [(t, ["num", k, 100]) for t, k in LOOKALIKES]:
                 yield dict(legal, power=v, illegal="power:" + tag)
         elif cls._hasparam:
-            for tag, v in [("neg", -1), ("16", 16), ("big", 2 ** 31), ("none", None), ("float", 1.5), ("str", "5")]:
+            for tag, v in list(bad_ints(15)) + [("none", None), ("float", 1.5), ("str", "5")] + \
+                    [(t, ["num", k, 3]) for t, k in LOOKALIKES]:
                 yield dict(legal, params=[v], illegal="param:" + tag)
     elif fam == "_SpecialCommand" and cls._hasparam:
-        for tag, v in [("neg", -1), ("256", 256), ("big", 2 ** 31), ("none", None), ("float", 1.5), ("str", "5"), ("bytes", b"\x05")]:
+        for tag, v in list(bad_ints(255)) + [("none", None), ("float", 1.5), ("str", "5"), ("bytes", b"\x05")] + \
+                [(t, ["num", k, 5]) for t, k in LOOKALIKES]:
             yield dict(base, params=[v if not isinstance(v, bytes) else "\x05"], illegal="param:" + tag)
     elif fam == "_ShortAddrSpecialCommand":
-        for tag, v in [("neg", -1), ("64", 64), ("big", 2 ** 31), ("none", None), ("float", 1.5), ("str", "5"), ("other-str", "mask")]:
+        for tag, v in list(bad_ints(63)) + [("none", None), ("float", 1.5), ("str", "5"), ("other-str", "mask")] + \
+                [(t, ["num", k, 5]) for t, k in LOOKALIKES]:
             yield dict(base, address=v, illegal="address:" + tag)
     elif fam == "Initialise":
-        for tag, v in [("neg", -1), ("64", 64), ("big", 2 ** 31), ("float", 1.5), ("str", "5")]:
+        for tag, v in list(bad_ints(63)) + [("float", 1.5), ("str", "5")] + [(t, ["num", k, 5]) for t, k in LOOKALIKES]:
             yield dict(base, kw={"address": v}, illegal="address:" + tag)
         yield dict(base, kw={"broadcast": True, "address": 5}, illegal="address-with-broadcast")
     elif fam in ("_StandardDeviceCommand", "_StandardInstanceCommand"):
@@ -494,10 +567,12 @@ def illegal_cases(path, fam, cls):
             for tag, v in [("device-address", ["dshort", 3]), ("gear-address", ["gshort", 3])]:
                 yield dict(legal, inst=v, illegal="instance:" + tag)
     elif fam == "_SpecialDeviceCommandOneParam":
-        for tag, v in [("neg", -1), ("256", 256), ("big", 2 ** 31), ("none", None), ("float", 1.5), ("str", "5")]:
+        for tag, v in list(bad_ints(255)) + [("none", None), ("float", 1.5), ("str", "5")] + \
+                [(t, ["num", k, 7]) for t, k in LOOKALIKES]:
             yield dict(base, params=[v], illegal="param:" + tag)
     elif fam == "_SpecialDeviceCommandTwoParam":
-        for tag, v in [("neg", -1), ("256", 256), ("big", 2 ** 31), ("none", None), ("float", 1.5), ("str", "5")]:
+        for tag, v in list(bad_ints(255)) + [("none", None), ("float", 1.5), ("str", "5")] + \
+                [(t, ["num", k, 7]) for t, k in LOOKALIKES]:
             yield dict(base, params=[v, 7], illegal="param1:" + tag)
             yield dict(base, params=[7, v], illegal="param2:" + tag)
     elif fam in ("_Event", "UnknownEvent", "AmbiguousInstanceType"):
@@ -512,7 +587,8 @@ def illegal_cases(path, fam, cls):
         for scheme in (SCHEMES if name != "AmbiguousInstanceType" else ["device_instance"]):
             legal = scheme_kwargs(scheme, 3, 2)
             for fld in legal:
-                for tag, v in [("neg", -1), ("above", field_max[fld] + 1), ("big", 2 ** 31), ("float", 1.5), ("str", "5")]:
+                for tag, v in list(bad_ints(field_max[fld])) + [("float", 1.5), ("str", "5")] + \
+                        [(t, ["num", k, 3 if fld != "instance_number" else 2]) for t, k in LOOKALIKES]:
                     kw = dict(legal, **dkw)
                     kw[fld] = v
                     yield dict(base, kw=kw, illegal="%s:%s:%s" % (scheme, fld, tag))
@@ -534,19 +610,20 @@ def illegal_cases(path, fam, cls):
             yield dict(base, kw=dict(dkw, device_group=3, instance_group=2), illegal="device-group+instance-group")
             yield dict(base, kw=dict(dkw, instance_group=3, instance_number=2), illegal="instance-group+instance-number")
         if name == "LightEvent":
-            for tag, v in [("1024", 1024), ("neg", -1), ("big", 2 ** 31), ("none", None), ("float", 1.5), ("str", "5")]:
+            for tag, v in list(bad_ints(1023)) + [("none", None), ("float", 1.5), ("str", "5")] + \
+                    [(t, ["num", k, 100]) for t, k in LOOKALIKES]:
                 yield dict(base, kw={"short_address": 3, "data": v}, illegal="illuminance:" + tag)
         if name == "OccupancyEvent":
             for tag, v in [("none", None), ("float", 1.5), ("str", "5")]:
                 yield dict(base, kw={"short_address": 3, "data": v}, illegal="occupancy-data:" + tag)
         if name == "UnknownEvent":
-            for tag, v in [("32", 32), ("neg", -1), ("big", 2 ** 31), ("float", 1.5), ("str", "5")]:
+            for tag, v in list(bad_ints(31)) + [("float", 1.5), ("str", "5")] + [(t, ["num", k, 9]) for t, k in LOOKALIKES]:
                 yield dict(base, kw={"short_address": 3, "instance_type": v, "data": 5}, illegal="instance_type:" + tag)
                 yield dict(base, kw={"instance_number": 3, "instance_type": v, "data": 5}, illegal="instance_type(instance scheme):" + tag)
-            for tag, v in [("1024", 1024), ("neg", -1), ("float", 1.5), ("str", "5")]:
+            for tag, v in list(bad_ints(1023)) + [("float", 1.5), ("str", "5")] + [(t, ["num", k, 100]) for t, k in LOOKALIKES]:
                 yield dict(base, kw={"short_address": 3, "instance_type": 9, "data": v}, illegal="data:" + tag)
         if name == "AmbiguousInstanceType":
-            for tag, v in [("1024", 1024), ("neg", -1), ("float", 1.5), ("str", "5")]:
+            for tag, v in list(bad_ints(1023)) + [("float", 1.5), ("str", "5")] + [(t, ["num", k, 100]) for t, k in LOOKALIKES]:
                 yield dict(base, kw={"short_address": 3, "instance_number": 2, "data": v}, illegal="data:" + tag)
 
 
@@ -588,7 +665,8 @@ def _address_shard(arg):
             res.nontrivial()
             for sig, msg in address_ctor_case(case):
                 res.violation(sig, case, msg)
-        for tag, v in [("neg", -1), ("above", top + 1), ("x2", 2 * (top + 1)), ("big", 2 ** 31), ("none", ["raw", "none"]),
+        for tag, v in list(bad_ints(top)) + [(t, ["num", k, 5]) for t, k in LOOKALIKES] + [
+                       ("none", ["raw", "none"]),
                        ("float", ["raw", "float"]), ("str", ["raw", "str"]), ("bytes", ["raw", "bytes"])]:
             case = {"fam": "address", "cls": name, "arg": v, "illegal": tag}
             res.count()
@@ -610,7 +688,7 @@ def _shard(arg):
     for path in paths:
         fam, cls = allc[path]
         n = 0
-        first = None
+        first = prev = None
         for case in legal_cases(path, fam, cls, quick, seed):
             n += 1
             if "maptype" in case and n % 2:
@@ -619,6 +697,9 @@ def _shard(arg):
                 res.label("legal:map-with-history")
             if first is None:
                 first = case
+            if prev is not None:
+                case["sibling"] = prev
+            prev = {k: v for k, v in case.items() if k not in ("cls", "fam", "sibling", "map_history")}
             for sig, msg in run_case(case):
                 res.violation(sig, case, msg)
         res.count(n)
